@@ -186,7 +186,7 @@ def solve_one(job):
     res = dict(id=oid, status='unknown', backend=ver, time=0.0, model=None, reason='')
     try:
         for rel in ([relaxed] if isinstance(relaxed, str) else (relaxed or [])):
-            r, _, _ = _z3_try(rel, min(timeout, 6000), {}, False)
+            r, _, _ = _z3_try(rel, min(timeout, 8000), {}, False)
             if r == 'unsat':
                 res.update(status='unsat', backend=ver + ' (quantifier-free relaxation)', time=time.time() - t0)
                 return res
